@@ -853,6 +853,15 @@ func (t *trans) call(c *ast.CallExpr) string {
 			if at, ok := c.Args[0].(*ast.ArrayType); ok && at.Len == nil && len(c.Args) == 2 {
 				return "(← makeSlice " + t.expr(c.Args[1]) + " " + t.zeroValue(at.Elt) + ")"
 			}
+		case "string":
+			// string(x) of a value whose underlying type is string (a named string type): the same string
+			if len(c.Args) == 1 {
+				if tv, ok := t.info.Types[c.Args[0]]; ok && tv.Type != nil {
+					if b, ok := tv.Type.Underlying().(*types.Basic); ok && b.Info()&types.IsString != 0 {
+						return t.expr(c.Args[0])
+					}
+				}
+			}
 		case "byte", "uint8":
 			if len(c.Args) == 1 && t.isIntExpr(c.Args[0]) {
 				return "(toByte " + t.expr(c.Args[0]) + ")"
@@ -2424,6 +2433,7 @@ func translate(repo string, p *pkgFiles, outPath string) {
 		{fn: "GetSSOBindingLocation", recv: "ServiceProvider"},
 		{fn: "GetSLOBindingLocation", recv: "ServiceProvider"},
 		{fn: "GetArtifactBindingLocation", recv: "ServiceProvider"},
+		{fn: "nameIDFormat", recv: "ServiceProvider"},
 		{fn: "ServeIDPInitiated", recv: "IdentityProvider", as: "idpInitiatedGate", state: "req", trace: true,
 			anchor: "session := idp.SessionProvider.GetSession(w, r, req)", until: "for _, spssoDescriptor := range req.ServiceProviderMetadata.SPSSODescriptors"},
 		{fn: "ServeSSO", recv: "IdentityProvider", as: "serveSSOGate", trace: true, until: "assertionMaker := idp.AssertionMaker"},
